@@ -61,8 +61,23 @@ impl Check for C01 {
         let session_style = r.chance(1, 3);
         let mut dec = ",".to_string();
         let mut have_session = false;
+        // a quarter of the runs: caller-supplied rules (patterns of two or more tokens, so that the
+        // termination measure of the rewrite loop holds) that accept or decline; lines that reach them
+        let with_rules = r.chance(1, 4);
+        let mut rule_counter = 0u32;
+        if with_rules {
+            for _ in 0..(1 + r.below(3)) {
+                let op = loop { let op = crate::checks::c04::gen_admin(&mut r, &g, &mut rule_counter, false); if matches!(op, AdminOp::AddRule { .. }) { break op; } };
+                events.push(Event { actor: ADMIN, op: Op::Admin(op), clock: ClockScript::Frozen { t } });
+            }
+        }
         for _ in 0..n_events {
             t = advance(&mut r, t);
+            if with_rules && r.chance(1, 12) {
+                let op = loop { let op = crate::checks::c04::gen_admin(&mut r, &g, &mut rule_counter, false); if matches!(op, AdminOp::AddRule { .. } | AdminOp::DeleteRule { .. }) { break op; } };
+                events.push(Event { actor: ADMIN, op: Op::Admin(op), clock: ClockScript::Frozen { t } });
+                continue;
+            }
             if r.below(10) < cfg_rate {
                 let op = gen_config(&mut r, &g);
                 if let AdminOp::SetDecimalSep { s } = &op { dec = s.clone(); }
@@ -85,7 +100,7 @@ impl Check for C01 {
             let mut lines: Vec<Line> = Vec::new();
             let mut any_bad = false;
             for _ in 0..n {
-                let good = g.any_line(&mut r, &lang, &dec);
+                let good = if with_rules && r.chance(1, 3) { crate::checks::c04::rule_line(&mut r, &g, &dec) } else { g.any_line(&mut r, &lang, &dec) };
                 let line = if r.below(10) < junk_rate {
                     any_bad = true;
                     let other = g.any_line(&mut r, &lang, &dec);
@@ -118,7 +133,7 @@ impl Check for C01 {
             }
         }
         crate::gen::session_variants(&mut r, &mut events, 3, 6, 0);
-        Trace { check: "C01".into(), seed, host_tz: env.host_tz.clone(), salt: 0, mode: "mixed".into(), events }
+        Trace { check: "C01".into(), seed, host_tz: env.host_tz.clone(), salt: seed ^ 0x5a17, mode: if with_rules { "mixed+rules".into() } else { "mixed".into() }, events }
     }
 
     fn execute(&self, trace: &Trace, env: &Env) -> RunReport {
@@ -199,7 +214,9 @@ impl Check for C01 {
                         match last_slots { Some(p) if p > want => rep.count("session.swap_shrink"), Some(p) if p < want => rep.count("session.swap_grow"), Some(_) => rep.count("session.swap_same"), None => {} }
                         last_slots = Some(want);
                     }
+                    let calls_before = w.log.borrow().len();
                     let (o, clk) = if is_session { w.session_text(ev.actor, &full, &ev.clock) } else { w.execute(&lang, &full, &ev.clock) };
+                    for rec in w.log.borrow()[calls_before..].iter() { rep.count(if rec.decision == crate::rules::Decision::Decline { "rule.decline" } else { "probe.rule_accept" }); }
                     rep.evaluations += 1;
                     rep.clock_reads += clk.values.len() as u64;
                     if !ev.clock.is_frozen() && clk.distinct_values().len() > 1 { rep.count(&format!("clock.{}", ev.clock.kind())); }
